@@ -159,10 +159,11 @@ mod kani_c12_tx {
     fn c12_dispatch_ip_first_fragment() {
         let mtu = any_mtu();
         let mut cx = InterfaceInner::kani_ctx(Instant::from_millis(0), mtu, kani::any(), true);
+        cx.caps.checksum.udp = crate::phy::Checksum::None;   // UDP checksum is C08's obligation; the IPv4 header checksum stays on
         let mut frag = Fragmenter::new();
         let pay: [u8; FB] = kani::any();
         let n: usize = kani::any();
-        kani::assume(n + HDR + 8 <= FB && n + HDR + 8 > mtu); // tag: pre   (oversized UDP datagram that fits the fragmentation buffer)
+        kani::assume(n <= FB && n + HDR + 8 <= FB && n + HDR + 8 > mtu); // tag: pre   (oversized UDP datagram that fits the fragmentation buffer)
         let (src, dst) = (Ipv4Address::from_bits(kani::any()), Ipv4Address::from_bits(kani::any()));
         kani::assume(!dst.is_unspecified()); // tag: pre
         let udp = UdpRepr { src_port: kani::any(), dst_port: kani::any() };
@@ -216,12 +217,13 @@ mod kani_c12_tx {
     fn c12_busy(exclude_known: bool) {
         let mtu = any_mtu();
         let mut cx = InterfaceInner::kani_ctx(Instant::from_millis(0), mtu, kani::any(), true);
+        cx.caps.checksum.udp = crate::phy::Checksum::None;
         let mut frag = any_fragmenter();
         kani::assume(frag.packet_len == 0 || (j_fr(&frag, mtu) && frag.sent_bytes < frag.packet_len)); // tag: pre
         if exclude_known { kani::assume(frag.is_empty()); } // tag: known-finding-F8
         let pay: [u8; FB] = kani::any();
         let n: usize = kani::any();
-        kani::assume(n + HDR + 8 <= FB && n + HDR + 8 > mtu); // tag: pre
+        kani::assume(n <= FB && n + HDR + 8 <= FB && n + HDR + 8 > mtu); // tag: pre
         let dst = Ipv4Address::from_bits(kani::any());
         kani::assume(!dst.is_unspecified()); // tag: pre
         let ip = Ipv4Repr { src_addr: Ipv4Address::from_bits(kani::any()), dst_addr: dst, next_header: IpProtocol::Udp, payload_len: 8 + n, hop_limit: 64 };
